@@ -23,6 +23,7 @@ import (
 	"os"
 	"path"
 	"path/filepath"
+	"strconv"
 	"strings"
 	"sync"
 	"time"
@@ -241,9 +242,12 @@ func CompareVersion(v1, v2 string) int {
 		return 1
 	}
 
-	if parts1[1] < parts2[1] {
+	// nanosecond part is not zero padded, compare it as a number
+	n1, _ := strconv.Atoi(parts1[1])
+	n2, _ := strconv.Atoi(parts2[1])
+	if n1 < n2 {
 		return -1
-	} else if parts1[1] > parts2[1] {
+	} else if n1 > n2 {
 		return 1
 	}
 
